@@ -4,7 +4,7 @@ CONSTANTS
   LeafIds = {"s1", "s2", "p1", "t1", "t2"}
   MaxDepth = 0
   MaxArity = 3
-  UnOps = {"wrap1", "erswrap", "panic"}
+  UnOps = {"wrap1", "erswrap", "panic", "tail"}
   NOps = {"multi", "join", "sres", "stack", "coll", "panics"}
   SimSteps = 12
   NilLike = {"nstack"}
